@@ -398,6 +398,12 @@ def _num(v):
         return Fraction(v["n"][0], v["n"][1])
     if "w" in v:
         return v["w"].lower()
+    # the k-th of n log-interpolated values between a and b (irrational in general): the double MCNP computes,
+    # as an exact rational; every comparison of the oracle is within the library's relative tolerance
+    (an, ad), (bn, bd), k, n = v["log"]
+    a, b = an / ad, bn / bd
+    if a > 0 and b > 0:
+        return Fraction(a ** ((n + 1 - k) / (n + 1)) * b ** (k / (n + 1)))
     return ("log", str(v["log"]))
 
 
